@@ -6,8 +6,11 @@
      2. what is left out of the reference                            (rb_scheme_omitted ...)
      3. equals_authority as equality of fields                       (equals_authority_fields)
      4. the common-prefix walk and the dot-segment walk              (skip_common_split, walk_roundtrip)
-     5. the round trip under walk_ok                                 (roundtrip_walk ...)
-     6. the round trip in the cases without a walk                   (roundtrip_copy ...)
+     5. the round trip under walk_ok                                 (roundtrip_walk)
+        the comparison of the property                               (canon10, same_target)
+     6. the round trip in the cases without a walk                   (roundtrip_copy, roundtrip_other_authority,
+                                                                      roundtrip_domain_root)
+        sources with dot segments                                    (roundtrip_walk_dotted)
      7. witnesses against the unrestricted round trip                (roundtrip_refuted ...) *)
 From Coq Require Import List NArith ZArith Bool Lia String.
 From UP Require Import Base.Chars Model.Uri Model.Common Model.Compare Model.Resolve Model.Shorten
@@ -482,11 +485,27 @@ Proof.
 Qed.
 
 (* ---------------------------------------------------------------- the comparison of the property *)
-(* "compared after dot-segment normalization and treating an empty path under an authority as /" *)
+(* "compared after dot-segment normalization and treating an empty path under an authority as /":
+   dot segments removed (uriRemoveDotSegmentsAbsolute), an empty path under a host replaced by the single
+   empty segment, and -- as every parse and every resolution ends -- the single empty segment of a
+   host-less URI dropped (uriFixEmptyTrailSegment; both forms print the same text) *)
 Definition canon10 (u : uri) : uri :=
   let v := remove_dot_segments_absolute u in
-  if is_host_set v && match pathSegs v with [] => true | _ => false end then set_pathSegs [[]] v else v.
+  fix_empty_trail_segment
+    (if is_host_set v && match pathSegs v with [] => true | _ => false end then set_pathSegs [[]] v else v).
 Definition same_target (a b : uri) : Prop := components (canon10 a) = components (canon10 b).
+
+(* the last two steps on the segment list *)
+Definition trail_p (h : bool) (s : list text) : list text :=
+  fixtrail_p h (if h && match s with [] => true | _ => false end then [[]] else s).
+
+Lemma canon10_nf u : canon10 u
+  = set_pathSegs (trail_p (is_host_set u) (rds_p (is_host_set u) (absolutePath u) (pathSegs u))) u.
+Proof.
+  unfold canon10, trail_p. cbv zeta. rewrite rds_nf. autorewrite with uri_db. usimpl.
+  destruct (is_host_set u && _); rewrite fixtrail_nf; autorewrite with uri_db; usimpl;
+    destruct u; reflexivity.
+Qed.
 
 Lemma components_fields a b : scheme a = scheme b -> auth_fields a = auth_fields b ->
   pathSegs a = pathSegs b -> absolutePath a = absolutePath b -> query a = query b -> fragment a = fragment b ->
@@ -496,11 +515,13 @@ Proof.
   injection H2 as -> -> -> -> -> ->. subst. reflexivity.
 Qed.
 
+Lemma host_of_auth_fields a b : auth_fields a = auth_fields b -> is_host_set a = is_host_set b.
+Proof. unfold auth_fields, is_host_set. intros H. injection H as _ -> -> -> -> _. reflexivity. Qed.
+
 Lemma canon10_components a b : components a = components b -> components (canon10 a) = components (canon10 b).
 Proof.
   destruct a, b. unfold components. usimpl. intros H. injection H as -> -> -> -> -> -> -> -> -> -> ->.
-  unfold canon10. rewrite !rds_nf. usimpl. unfold is_host_set. usimpl.
-  match goal with |- context [if ?c then _ else _] => destruct c end; reflexivity.
+  rewrite !canon10_nf. reflexivity.
 Qed.
 
 Lemma same_target_components a b : components a = components b -> same_target a b.
@@ -708,8 +729,8 @@ Qed.
 Lemma canon10_slash u : is_host_set u = true -> pathSegs u = [] ->
   components (canon10 (set_pathSegs [[]] u)) = components (canon10 u).
 Proof.
-  intros Hh Hp. unfold canon10. rewrite !rds_nf. autorewrite with uri_db. usimpl. rewrite Hh, Hp.
-  cbn [rds_p rds_walk seg_dot seg_dotdot rev app andb]. reflexivity.
+  intros Hh Hp. rewrite !canon10_nf. autorewrite with uri_db. usimpl. rewrite Hh, Hp.
+  destruct u. reflexivity.
 Qed.
 
 Theorem roundtrip_domain_root_target src base : scheme src <> None -> scheme base <> None ->
@@ -737,6 +758,170 @@ Proof.
   destruct (is_host_set src) eqn:Hh; [|reflexivity].
   destruct (pathSegs src) eqn:Ep; [|reflexivity]. cbn [andb].
   apply canon10_slash; assumption.
+Qed.
+
+(* ---------------------------------------------------------------- sources with dot segments *)
+(* the stack of the absolute-mode walk after a run of segments that is not the end of the path *)
+Fixpoint walk_state (kept p : list text) : list text :=
+  match p with
+  | [] => kept
+  | w :: p' =>
+    if seg_dot w then walk_state kept p'
+    else if seg_dotdot w then walk_state (tl kept) p'
+    else walk_state (w :: kept) p'
+  end.
+
+Lemma walk_prefix h a : forall p kept rest, rest <> [] ->
+  rds_walk false h a kept (p ++ rest) = rds_walk false h a (walk_state kept p) rest.
+Proof.
+  induction p as [|w p IH]; intros kept rest Hne; [reflexivity|].
+  cbn [app walk_state]. rewrite walk_false_cons.
+  destruct (p ++ rest) as [|t l] eqn:E.
+  { apply app_eq_nil in E. destruct E as [_ E]. congruence. }
+  rewrite <- E. destruct (seg_dot w); [apply IH; exact Hne|].
+  destruct (seg_dotdot w); apply IH; exact Hne.
+Qed.
+
+Lemma walk_state_nodot : forall p kept, forallb nodot p = true -> walk_state kept p = rev p ++ kept.
+Proof.
+  induction p as [|w p IH]; intros kept H; [reflexivity|].
+  cbn [forallb] in H. apply andb_true_iff in H. destruct H as [Hw Hp].
+  unfold nodot in Hw. apply andb_true_iff in Hw. destruct Hw as [H1 H2].
+  apply negb_true_iff in H1. apply negb_true_iff in H2.
+  cbn [walk_state]. rewrite H1, H2, (IH _ Hp). cbn [rev]. rewrite <- app_assoc. reflexivity.
+Qed.
+
+(* the general form of walk_roundtrip: nothing is assumed of the common prefix and of the source's rest *)
+Lemma walk_roundtrip_gen h a c b' s' : b' <> [] -> s' <> [] -> forallb nodot b' = true ->
+  rds_walk false h a []
+    (removelast (c ++ b') ++ parents b' ++ rest_segments (match parents b' with [] => true | _ => false end) s')
+  = rds_walk false h a [] (c ++ s').
+Proof.
+  intros Hb Hs Hnb.
+  set (g := match parents b' with [] => true | _ => false end).
+  assert (rest_segments g s' <> []) as Hr.
+  { destruct s' as [|x s0]; [congruence|]. unfold rest_segments.
+    intros E. apply app_eq_nil in E. destruct E as [_ E]. discriminate E. }
+  assert (parents b' ++ rest_segments g s' <> []) as Hr2
+    by (intros E; apply app_eq_nil in E; destruct E as [_ E]; exact (Hr E)).
+  rewrite (removelast_app c Hb). rewrite <- app_assoc.
+  rewrite (walk_prefix h a c [] _ ltac:(intros E; apply app_eq_nil in E; destruct E as [_ E]; exact (Hr2 E))).
+  rewrite (walk_prefix h a c [] s' Hs).
+  set (K := walk_state [] c).
+  rewrite (walk_push h a (removelast b') K _ (forallb_removelast _ _ Hnb)).
+  rewrite parents_repeat. rewrite (walk_pops h a _ _ _ Hr).
+  rewrite skipn_app. rewrite rev_length. rewrite Nat.sub_diag. cbn [skipn].
+  rewrite <- (rev_length (removelast b')) at 1. rewrite skipn_all. cbn [app].
+  destruct s' as [|x s0]; [congruence|]. unfold rest_segments.
+  destruct (g && (has_colon x || match x with [] => true | _ => false end)); [|reflexivity].
+  cbn [app]. rewrite walk_false_cons. change (seg_dot [46]) with true. cbv iota. reflexivity.
+Qed.
+
+(* the condition without the clauses on the source path *)
+Definition walk_ok_dotted (src base : uri) : bool :=
+  is_some (scheme src) && is_some (scheme base)
+  && range_eqb (scheme src) (scheme base)
+  && equals_authority src base
+  && Bool.eqb (is_host_set src) (is_host_set base)
+  && (is_host_set src || Bool.eqb (absolutePath src) (absolutePath base))
+  && nonnil (fst (skip_common (pathSegs src) (pathSegs base)))
+  && nonnil (snd (skip_common (pathSegs src) (pathSegs base)))
+  && forallb nodot (snd (skip_common (pathSegs src) (pathSegs base)))
+  && forallb nonul (pathSegs src)
+  && wf src && wf base.
+
+(* cleaning the result once more undoes what uriFixAmbiguity and uriFixEmptyTrailSegment did to it *)
+Lemma canon_path h a R : (h = true -> a = false) -> forallb nodot R = true ->
+  trail_p h (rds_p h a (fixtrail_p h (fixamb_p h a R))) = trail_p h R.
+Proof.
+  intros Hha Hd. destruct h.
+  - rewrite (Hha eq_refl). rewrite fixamb_host. cbn [fixtrail_p negb]. rewrite (rds_p_fixed _ _ _ Hd). reflexivity.
+  - assert (forall F, F = R -> trail_p false (rds_p false a (fixtrail_p false F)) = trail_p false R) as Hsame.
+    { intros F ->. unfold trail_p. cbn [andb fixtrail_p negb].
+      destruct R as [|[|c x] [|y l]]; try reflexivity; rewrite (rds_p_fixed _ _ _ Hd); reflexivity. }
+    assert (forall y l, R = [] :: y :: l ->
+              trail_p false (rds_p false a (fixtrail_p false ([46] :: R))) = trail_p false R) as Hdot.
+    { intros y l ->. cbn [fixtrail_p negb]. unfold rds_p. rewrite walk_false_cons.
+      change (seg_dot [46]) with true. cbv iota. rewrite (rds_walk_fixed false a _ Hd). reflexivity. }
+    destruct a; destruct R as [|[|c x] [|[|c2 y] l]] eqn:ER; cbn [fixamb_p];
+      first [apply Hsame; reflexivity | eapply Hdot; reflexivity].
+Qed.
+
+Theorem roundtrip_walk_dotted src base : walk_ok_dotted src base = true ->
+  let r := snd (remove_base false src base) in
+  let back := snd (add_base false r base) in
+  fst (remove_base false src base) = URI_SUCCESS
+  /\ fst (add_base false r base) = URI_SUCCESS
+  /\ scheme back = scheme src
+  /\ auth_fields back = auth_fields (copy_authority empty_uri base)
+  /\ pathSegs (canon10 back) = pathSegs (canon10 src) /\ absolutePath back = absolutePath src
+  /\ query back = query src /\ fragment back = fragment src.
+Proof.
+  unfold walk_ok_dotted. intros H.
+  repeat (apply andb_true_iff in H; let H' := fresh "K" in destruct H as [H H']).
+  rename K into Hwb, K0 into Hws, K1 into Hnul, K2 into Hdb,
+         K3 into Hbne, K4 into Hsne, K5 into Habs, K6 into Hhost, K7 into Hau, K8 into Hsch, K9 into Hbsome.
+  assert (scheme src <> None) as Hs by (destruct (scheme src); [discriminate|discriminate H]).
+  assert (scheme base <> None) as Hb by (destruct (scheme base); [discriminate|discriminate Hbsome]).
+  apply eqb_prop in Hhost.
+  destruct (skip_common (pathSegs src) (pathSegs base)) as [s' b'] eqn:Hk. cbn [fst snd] in *.
+  assert (s' <> []) as Hs' by (destruct s'; [discriminate Hsne|discriminate]).
+  assert (b' <> []) as Hb' by (destruct b'; [discriminate Hbne|discriminate]).
+  destruct (skip_common_split _ _ _ _ Hk) as (c & cb & Eps & Epb & Ecc).
+  assert (forallb nonul c = true) as Hcn.
+  { rewrite Eps, forallb_app in Hnul. apply andb_true_iff in Hnul. apply Hnul. }
+  pose proof (seg_req_eq c cb Hcn Ecc) as Ec. subst cb.
+  cbv zeta. rewrite (rb_walk src base s' b' Hs Hb Hsch Hau Hk).
+  set (P := parents b' ++ rest_segments (match parents b' with [] => true | _ => false end) s').
+  assert (P <> []) as HP.
+  { subst P. destruct s' as [|x s0]; [congruence|]. unfold rest_segments.
+    intros E. apply app_eq_nil in E. destruct E as [_ E]. apply app_eq_nil in E. destruct E as [_ E]. discriminate E. }
+  set (r := set_fragment (fragment src) (set_query (query src) (set_pathSegs P empty_uri))).
+  assert (pathSegs r = P) as EP by reflexivity.
+  assert (pathSegs r <> []) as HP' by (rewrite EP; exact HP).
+  split; [exact (remove_base_success false src base Hs Hb)|].
+  split; [rewrite (add_base_path_ref r base Hb eq_refl eq_refl eq_refl HP'); reflexivity|].
+  destruct (back_fields r base Hb eq_refl eq_refl eq_refl HP') as (B1 & B2 & B3 & B4 & B5 & B6).
+  assert (absolutePath base = absolutePath src) as Eab.
+  { destruct (is_host_set src) eqn:Hhs.
+    - rewrite (wf_host_abs src Hws Hhs). symmetry in Hhost. rewrite (wf_host_abs base Hwb Hhost). reflexivity.
+    - cbn [orb] in Habs. apply eqb_prop in Habs. symmetry. exact Habs. }
+  split; [rewrite B1; symmetry; exact (scheme_eq_of_range src base Hws Hsch)|].
+  split; [exact B2|].
+  split.
+  { rewrite !canon10_nf. usimpl.
+    rewrite (host_of_auth_fields _ _ B2), host_copy_authority, B4, B3, EP, Epb, <- Hhost, Eab. subst P.
+    rewrite (rds_p_nonempty _ _ (removelast _ ++ _))
+      by (intros E; apply app_eq_nil in E; destruct E as [_ E]; exact (HP E)).
+    rewrite (walk_roundtrip_gen _ _ c b' s' Hb' Hs' Hdb). rewrite <- Eps.
+    rewrite (rds_p_nonempty _ _ (pathSegs src))
+      by (rewrite Eps; intros E; apply app_eq_nil in E; destruct E as [_ E]; exact (Hs' E)).
+    apply canon_path; [exact (wf_host_abs src Hws)|apply rds_walk_nodots]. }
+  split; [rewrite B4; exact Eab|].
+  split; [rewrite B5; reflexivity|rewrite B6; reflexivity].
+Qed.
+
+Theorem roundtrip_walk_dotted_target src base : walk_ok_dotted src base = true ->
+  one_kind base = true -> auth_fields src = auth_fields base ->
+  same_target (snd (add_base false (snd (remove_base false src base)) base)) src.
+Proof.
+  intros Hw Hk Ha.
+  destruct (roundtrip_walk_dotted src base Hw) as (_ & _ & B1 & B2 & B3 & B4 & B5 & B6).
+  unfold same_target. apply components_fields.
+  - rewrite !canon10_nf. exact B1.
+  - rewrite !canon10_nf. autorewrite with af_db. rewrite B2, Ha. apply auth_fields_copy. exact Hk.
+  - exact B3.
+  - rewrite !canon10_nf. exact B4.
+  - rewrite !canon10_nf. exact B5.
+  - rewrite !canon10_nf. exact B6.
+Qed.
+
+(* walk_ok is walk_ok_dotted plus the clauses on the source path *)
+Lemma walk_ok_dotted_of_walk_ok src base : walk_ok src base = true -> walk_ok_dotted src base = true.
+Proof.
+  unfold walk_ok, walk_ok_dotted. intros H.
+  repeat (apply andb_true_iff in H; let H' := fresh "K" in destruct H as [H H']).
+  rewrite H, K11, K10, K9, K8, K7, K6, K5, K3, K2, K1, K0. reflexivity.
 Qed.
 
 (* ---------------------------------------------------------------- 7. the unrestricted round trip is false *)
